@@ -38,6 +38,9 @@ class Profile:
         self.keep_log = False        # keep the shim's complete event log in memory after the home is removed
         self.p_spawner_eof = 0.0     # probability per quiescent point that a spawner "dies" (EOF on its report pipe)
         self.plan_persist = False    # apply the fault plan to every incarnation of the daemons (call indices are per process)
+        self.min_rcpts = None        # lower bound of the recipient count of a message (None: 1, rarely 0)
+        self.rcpt_doms = None        # recipient domains to draw from (None: local, remote, mixed case, virtual)
+        self.report_burst = 1        # answer up to this many outstanding deliveries at one quiescent point
         self.__dict__.update(kw)
 
 
@@ -122,8 +125,9 @@ class History:
         kind = rng.choice(p.senders)
         sender = {"user": b"s%d@local.test" % m, "user-remote": b"s%d@remote.test" % m, "empty": b"", "double": b"#@[]",
                   "verp": b"list%d-@local.test-@[]" % m}[kind]
-        n = rng.randint(0 if rng.random() < 0.05 else 1, p.max_rcpts)
-        doms = [b"local.test", b"remote.test", b"LOCAL.test"] + ([b"virt.test", b"Other.Test"] if self.vdoms else [])
+        n = rng.randint((0 if rng.random() < 0.05 else 1) if p.min_rcpts is None else p.min_rcpts, p.max_rcpts)
+        doms = list(p.rcpt_doms) if p.rcpt_doms else \
+            [b"local.test", b"remote.test", b"LOCAL.test"] + ([b"virt.test", b"Other.Test"] if self.vdoms else [])
         rc = [b"r%d.%d@%s" % (m, k, rng.choice(doms)) for k in range(n)]
         if p.virtual and rc and rng.random() < 0.3:
             rc[0] = b"r%d\nx@%s" % (m, rng.choice(doms))         # a newline inside a recipient address
@@ -268,9 +272,12 @@ class History:
                         del sim.outstanding[k]          # those deliveries will never be answered
                     continue
                 if sim.outstanding and rng.random() > p.hold_reports:
-                    k = rng.choice(sorted(sim.outstanding))
-                    cmd = sim.outstanding[k]
-                    sim.report(cmd, self.choose_report(cmd))
+                    for _ in range(rng.randint(1, max(1, p.report_burst))):
+                        if not sim.outstanding:
+                            break
+                        k = rng.choice(sorted(sim.outstanding))
+                        cmd = sim.outstanding[k]
+                        sim.report(cmd, self.choose_report(cmd))
                     continue
                 # garbage awaiting the 36 h collector (S2/S3 leftovers of a crash during elimination) is not a message
                 left = {n: d for n, d in sim.scan().items() if "info" in d or "todo" in d or not d <= {"mess", "intd"}}
